@@ -685,6 +685,9 @@ class FxAnalyzer:
         (each is <= PTRDIFF_MAX: stated assumption)."""
         if not isinstance(e, dict):
             return None
+        wp = env.get(("#wrapP",))
+        if wp is not None:
+            e = self.wrap_rewrite(e, wp[0], wp[1])
         for n in walk(e):
             if n.get("k") == "Bin" and n.get("op") == "-" and not strip(n["x"]).get("p"):
                 if self.ty.is_unsigned(n.get("t") or "") or self.ty.canon(n.get("t") or "") in ("size_t", "unsigned long"):
@@ -1197,6 +1200,64 @@ class FxAnalyzer:
                     env = env.set(("#seen", n["id"]), (1, 1))
         return env
 
+    def is_param_minus_const(self, x):
+        """(parameter id, name, k) if x is `P - k`, P a size_t parameter with a documented extent role, k a positive constant"""
+        while isinstance(x, dict) and (x.get("k") == "Paren" or (x.get("k") == "Cast" and not x.get("p") and
+                                       self.ty.urange(x.get("t") or "") == (1 << 64) - 1)):
+            x = x["e"]
+        if not (isinstance(x, dict) and x.get("k") == "Bin" and x.get("op") == "-"):
+            return None
+        a = x["x"]
+        while isinstance(a, dict) and a.get("k") == "Paren":
+            a = a["e"]
+        kc = int_val(x["y"])
+        if not (isinstance(a, dict) and a.get("k") == "Ref" and a.get("rk") == "param" and kc is not None and 0 < kc < (1 << 31)):
+            return None
+        if a.get("id") not in self.ext_params or a.get("id") in self.untracked:
+            return None
+        if self.ty.canon(a.get("t") or "") not in ("size_t", "unsigned long"):
+            return None
+        return a["id"], a.get("n"), kc
+
+    def wrap_rewrite(self, e, P, kc):
+        """e with every `P - kc` replaced by `P + (2^64 - kc)`: the machine value in the case P < kc"""
+        if isinstance(e, list):
+            return [self.wrap_rewrite(x, P, kc) for x in e]
+        if not isinstance(e, dict):
+            return e
+        m = self.is_param_minus_const(e) if e.get("k") == "Bin" else None
+        if m is not None and m[0] == P and m[2] == kc:
+            x = e
+            return dict(x, op="+", y={"k": "Int", "v": str((1 << 64) - kc), "t": x.get("t")})
+        return {k_: (self.wrap_rewrite(v, P, kc) if isinstance(v, (dict, list)) else v) for k_, v in e.items()}
+
+    def fresh_param(self, P, env):
+        """no test on the path mentioned P, no interval was learnt for it, every fact about it is its entry equality"""
+        if env.get(("#seen", P)) is not None or env.get(P) not in (None, TOP, (0, None)):
+            return False
+        ghost = 0
+        for terms, c in env.facts:
+            if P in dict(terms):
+                if set(dict(terms)) == {P, ("e", P)} and c == 0:
+                    ghost += 1
+                else:
+                    return False
+        return ghost == 2
+
+    def wrap_cases_arg(self, e, env, line):
+        """the same two cases for a call argument that is `P - k` itself (`f(in, in_len - 8)` before in_len is tested)"""
+        for c in walk(e):
+            if c.get("k") != "Call" or re.search(r"Is[A-Z]|^utilAssert$", c.get("callee") or "Is_"):
+                continue        # validity predicates (memIsValid, ASSERT conditions) touch nothing
+            for a in c.get("a") or ():
+                m = self.is_param_minus_const(a)
+                if m is not None and self.fresh_param(m[0], env):
+                    P, pn, kc = m
+                    self.wrap_sites.add((line, pn, kc))
+                    wenv = env.set(P, (0, kc - 1)).set(("#wrapP",), (P, kc)).set(("#wrap",), (line, line))
+                    return [(env.set(P, (kc, None)), lambda x: x), (wenv, lambda x: x)]
+        return None
+
     def wrap_cases(self, e, target, env, line):
         """[(environment before, fix-up after)] for the statement `x = P - k` (target: the declared variable, or None
         for an assignment statement), where P is a length parameter whose extent the header documents, k a positive
@@ -1205,6 +1266,13 @@ class FxAnalyzer:
         one = [(env, lambda x: x)]
         if not self.sym_ext or env.get(("#wrap",)) is not None or self.f.static or "err_t" not in str(self.f.ret):
             return one          # the err_t functions of the API validate their lengths themselves: every value is admissible
+        r = self._wrap_cases_assign(e, target, env, line)
+        if r is not None:
+            return r
+        return self.wrap_cases_arg(e, env, line) or one
+
+    def _wrap_cases_assign(self, e, target, env, line):
+        one = None
         x = e
         while isinstance(x, dict) and x.get("k") == "Paren":
             x = x["e"]
